@@ -120,7 +120,14 @@ def behaviour(res, inproc, rng, tier):
     try:
         rc, out, err = C.scratch_run(d)
         if "DONE" not in out:
-            raise C.BuildError("C07 behaviour crate (real proc-macro) did not build/run", (err or out)[-3000:])
+            rc2, diags, err2 = C.scratch_check(d)
+            by, stray = cf.errors_by_case(diags)
+            for cid, errs in list(by.items())[:8]:
+                res.violation("compile:" + descs[str(cid)], f"{descs[str(cid)]}: does not compile: {errs[0][:240]}",
+                              {"cmd": "compile", "source": descs[str(cid)], "errors": errs[:3]})
+            if not by:
+                raise C.BuildError("C07 behaviour crate (real proc-macro) did not build/run", (err or out)[-3000:])
+            return 0, n, [descs["0"], descs["1"]]
         checks = int(out.split("DONE checks=")[1].split()[0])
         seen = set()
         for l in out.splitlines():
